@@ -25,8 +25,8 @@ Print Assumptions Gen_generator_order_known.
 (* the relative order the per-property slices assume: namespace, prefix, suffix, labels, annotations *)
 Theorem Gen_transformer_order_modelled :
   filter (fun n => str_in n modelled_transformers) gen_transformer_order =
-  ["NamespaceTransformer"; "PrefixTransformer"; "SuffixTransformer"; "LabelTransformer"; "AnnotationsTransformer";
-   "ReplicaCountTransformer"; "ImageTagTransformer"]%string.
+  ["PatchTransformer"; "NamespaceTransformer"; "PrefixTransformer"; "SuffixTransformer"; "LabelTransformer";
+   "AnnotationsTransformer"; "ReplicaCountTransformer"; "ImageTagTransformer"]%string.
 Proof. exact gen_transformer_order_modelled. Qed.
 Print Assumptions Gen_transformer_order_modelled.
 
